@@ -243,6 +243,7 @@ func cmdCheck(args []string) {
 	var lines []string
 	nObl, nDis := 0, 0
 	covers, canaries := 0, 0
+	deadSites := 0
 	byBackend := map[string]int{}
 	var solverTotal, solverMax float64
 	var records []oblRecord
@@ -272,11 +273,19 @@ func cmdCheck(args []string) {
 		}
 		rec := oblRecord{Name: strings.ReplaceAll(o.Name, repoMod+"/", ""), Kind: o.Kind, Result: o.Result, Solver: o.Solver, TimeS: o.TimeS, Size: o.Size, Clause: o.Clause}
 		records = append(records, rec)
+		if o.Kind == "cover-pre" {
+			continue
+		}
 		if o.ExpectSat {
 			if o.Kind == "cover" {
 				covers++
 			} else {
 				canaries++
+			}
+			if o.Result == "unsat" && o.Pre != nil && o.Pre.Result == "unsat" {
+				// the call site is unreachable under the function's preconditions (dead branch): not vacuity
+				deadSites++
+				continue
 			}
 			if o.Result == "unsat" {
 				report(o, "vacuity: "+o.Kind+" query is unsatisfiable (contradictory assumptions or unreachable exits)", false)
@@ -389,6 +398,7 @@ func cmdCheck(args []string) {
 				"by_backend":                byBackend,
 				"solver_time_s":             map[string]float64{"total": round2(solverTotal), "max": round2(solverMax)},
 				"cover_queries":             covers,
+				"call_sites_unreachable_under_preconditions": deadSites,
 				"canaries":                  canaries,
 				"known_findings":            knownHit,
 				"unannotated_loops_havocked": unannotatedLoops,
